@@ -68,6 +68,40 @@ def run(ctx, rep):
         cls = F.closures_of(b)
         c_all, _ = consts_in(F, cls)
         rep.check("C20.const", "seconds are scaled by 75 and frames by 588 samples", {75, 588} <= c_all, loc_of(b), str(sorted(c_all)))
+
+        def bound_of(parent_local):
+            """the `< bound` of the filter the parsed field went through"""
+            sl = backward_slice(b, {"c": {"l": parent_local, "p": []}})
+            for c in sl["calls"]:
+                if re.search(r"Option::<T>::filter$", callee_name(c)):
+                    for cl in c["cls"]:
+                        cbb = F.body(cl)
+                        for x in (ok.closure_bool_facts(cbb) if cbb else ()):
+                            if x[0] == "cmp" and x[1] == "Lt" and str(x[3]).startswith("const:"):
+                                return int(str(x[3])[6:])
+            return None
+        scaled, plain = [], []
+        for c in cls:
+            for bl in c.blocks:
+                for st_ in bl["s"]:
+                    rv = st_["rv"]
+                    if rv["r"] == "bin" and rv["op"].startswith("Mul"):
+                        k = op_int(rv["b"]) if op_int(rv["b"]) is not None else op_int(rv["a"])
+                        o = rv["a"] if op_int(rv["b"]) is not None else rv["b"]
+                        cs = capture_source(F, c, o) if op_place(o) else None
+                        if cs and cs[1] is not None and cs[0].path == b.path:
+                            scaled.append((bound_of(cs[1]["l"]), k))
+                    if rv["r"] == "bin" and rv["op"].startswith("Add"):
+                        for o in (rv["a"], rv["b"]):
+                            if op_place(o) is None:
+                                continue
+                            rp = root_place(c, o)
+                            if rp is not None and rp["l"] == 1:
+                                cs = capture_source(F, c, o)
+                                if cs and cs[1] is not None and cs[0].path == b.path:
+                                    plain.append(bound_of(cs[1]["l"]))
+        rep.check("C20.const", "the field limited to < 60 (seconds) is multiplied by 75, the field limited to < 75 (frames) is added unscaled", scaled == [(60, 75)] and plain == [75], loc_of(b), "scaled %s plain %s" % (scaled, plain),
+                  "MM:SS:FF conversion: scaled fields %s (bound, factor), unscaled %s - expected seconds (< 60) x 75 and frames (< 75) x 1" % (scaled, plain))
     st = F.statics
     rep.check("C20.const", "SAMPLES_PER_SECTOR == 44100 / 75 == 588", st.get("metadata::cuesheet::CDDAOffset::SAMPLES_PER_SECTOR", {}).get("v") == spec["samples_per_frame"], "src/metadata/cuesheet.rs")
     ts = {k.rsplit("::", 1)[1]: v.get("v") for k, v in st.items() if "::Timestamp::" in k}
@@ -94,6 +128,12 @@ def run(ctx, rep):
     rep.check("C20.keys", "FLAGS PRE sets pre_emphasis to true, nothing else writes it", len(pre) == 1 and op_int(pre[0]["rv"].get("o", {})) == 1, loc_of(b))
     isrc = agg_sites(b, "metadata::cuesheet::ISRC", "String")
     rep.check("C20.keys", "ISRC line stores the parsed code", len(isrc) == 1, loc_of(b))
+    pfb = ok.path_facts(b)
+    for bi, st_ in agg_sites(b, "metadata::CuesheetError", "NonZeroFirstIndex"):
+        f = pfb.get(bi) or frozenset()
+        good = any(x[0] == "call-true" and str(x[1]).endswith("is_empty") for x in f) and any(x[0] == "cmp" and x[1] == "Ne" and "const:0" in (str(x[2]), str(x[3])) for x in f)
+        rep.check("C20.keys", "NonZeroFirstIndex only for the first track (no finished track yet) with a non-zero first index", good, b.loc(st_["sp"]), "",
+                  "the 'first index must be 00:00:00' rule is applied to tracks other than the first: well-formed multi-track sheets are rejected; facts: %s" % fact_str(f))
     for err in ("MultipleCatalogNumber", "MultipleISRC", "PrematureIndex", "PrematureISRC", "PrematureFlags", "LateISRC", "LateFlags", "NonZeroFirstIndex", "IndexPointsOutOfSequence", "TracksOutOfSequence", "NoTracks", "InvalidTrack", "InvalidIndexPoint"):
         sites = [1 for bb in region(F, b) for bi, s in agg_sites(bb, "metadata::CuesheetError", err)]
         rep.check("C20.keys", "malformed input class %s is rejected" % err, len(sites) >= 1, loc_of(b))
